@@ -273,6 +273,18 @@ void vp_c15_param_mismatch(int x, int y, vp_obs& o)
   catch (...) { o.ret = 0; m.p(5, y); }     // rejected; the expectation is then satisfied by a fitting call
   o.x = x; o.y = y;
 }
+// C13 through the macros: REQUIRE_DESTRUCTION plumbing (lifetime_monitor_modifier, operator+), expected and unexpected destruction
+void vp_c13_macros(bool expect, vp_obs& o)
+{
+  auto* obj = new trompeloeil::deathwatched<vp_D>();
+  std::unique_ptr<trompeloeil::expectation> r;
+  if (expect) r = NAMED_REQUIRE_DESTRUCTION(*obj);
+  o.x = r ? r->is_satisfied() : -1;
+  delete obj;
+  o.ret = r ? r->is_satisfied() : -1;
+  o.y = r ? r->is_saturated() : -1;
+  o.extra = 0;
+}
 void vp_build_objects()
 {
   vp_M m; trompeloeil::sequence s;
